@@ -35,6 +35,14 @@ pub fn dispatch(ctx: &Ctx, rep: &mut Report) {
                 crate::onris::c03::run(ctx, rep);
             }
         },
+        "C04" => {
+            if fm {
+                crate::onfm::c04::run(ctx, rep);
+            }
+            if ris {
+                crate::onris::c04::run(ctx, rep);
+            }
+        },
         other => {
             eprintln!("unknown check {other}");
             std::process::exit(3);
